@@ -19,10 +19,16 @@ TOL = 1e-9
 
 
 # ----------------------------------------------------------------------------------------------- helpers
+def fl(a):
+    """plain ndarray of python floats — or complex numbers when the data are complex (never silently dropped)"""
+    a = np.asarray(a)
+    return a.astype(complex) if np.iscomplexobj(a) else a.astype(float)
+
+
 def dense(M):
     if hasattr(M, "todense"):
-        return np.asarray(M.todense(), dtype=float)
-    return np.asarray(M, dtype=float)
+        return fl(M.todense())
+    return fl(M)
 
 
 def cols(f, n):
@@ -30,7 +36,7 @@ def cols(f, n):
     out = []
     for j in range(n):
         e = np.zeros(n); e[j] = 1.0
-        out.append(np.array(np.asarray(f(e), dtype=float).ravel(), copy=True))   # copy NOW: the callable may reuse its buffer
+        out.append(np.array(fl(f(e)).ravel(), copy=True))   # copy NOW: the callable may reuse its buffer
     return np.column_stack(out) if out else np.zeros((0, 0))
 
 
@@ -193,7 +199,13 @@ def vec_variants(v):
     big = np.zeros(2 * n); big[::2] = v
     rev = np.ascontiguousarray(v[::-1])
     ro = v.copy(); ro.setflags(write=False)
-    return {"int64": v.astype(np.int64), "float32": v.astype(np.float32), "strided": big[::2], "negstride": rev[::-1], "readonly": ro}
+    av = np.abs(v)
+    return {"int64": (v.astype(np.int64), v), "float32": (v.astype(np.float32), v), "strided": (big[::2], v), "negstride": (rev[::-1], v),
+            "readonly": (ro, v), "float16": (v.astype(np.float16), v), "int8": (v.astype(np.int8), v),
+            "uint8": (av.astype(np.uint8), av), "bool": (v != 0, (v != 0).astype(float))}
+
+
+GUISES = ("int64", "float32", "strided", "negstride", "readonly", "float16", "int8", "uint8", "bool")
 
 
 def probe_inputs(M, res):
@@ -230,7 +242,7 @@ def probe_inputs(M, res):
                 res["scaled"][(op, s_)] = np.column_stack(outs)
             except Exception as e:
                 res["scaled"][(op, s_)] = None; res["scaled"][(op, s_, "err")] = repr(e)[:100]
-        for name, v in vec_variants(V[:, 0]).items():
+        for name, (v, _vf) in vec_variants(V[:, 0]).items():
             try:
                 v0 = np.array(v, copy=True)
                 r = f(v)
@@ -253,8 +265,9 @@ def inputs_expected(res, fwd, adj):
             continue
         for s_ in SCALES:
             sc[(op, s_)] = Mx @ (s_ * V)
-        for name in ("int64", "float32", "strided", "negstride", "readonly"):
-            va[(op, name)] = Mx @ V[:, 0]
+        vv = vec_variants(V[:, 0])
+        for name in GUISES:
+            va[(op, name)] = Mx @ vv[name][1]
     return sc, va
 
 
@@ -266,9 +279,9 @@ def rel_differ(got, want, scale, tol=TOL):
 
 
 def guise_tol(name):
-    """a float32 input may legitimately be processed in single precision (numpy/scipy keep the input precision):
-    1e-5 relative there; all other guises carry the same float64 numbers"""
-    return 1e-5 if name == "float32" else TOL
+    """a float32 / float16 input may legitimately be processed in that precision (numpy/scipy keep the input precision):
+    1e-5 / 5e-3 relative there; all other guises (incl. int8, uint8, bool) carry exactly the same numbers"""
+    return 1e-5 if name == "float32" else 5e-3 if name == "float16" else TOL
 
 
 REPS = ("cu_par", "cu_fun", "samples")
@@ -277,8 +290,8 @@ REPS = ("cu_par", "cu_fun", "samples")
 def _plain(v):
     """result of a model call as a plain float ndarray (CUQIarray / Samples unwrapped)"""
     if hasattr(v, "samples") and not isinstance(v, np.ndarray):
-        return np.asarray(v.samples, dtype=float)
-    return np.asarray(v.to_numpy() if hasattr(v, "to_numpy") else v, dtype=float)
+        return fl(v.samples)
+    return fl(v.to_numpy() if hasattr(v, "to_numpy") else v)
 
 
 def probe_reps(make_model, M, res):
@@ -817,7 +830,7 @@ def _run(ctx):
                              ("tgm", lambda: dense(M.T.get_matrix())),
                              ("tbfwd", lambda: cols(Tb.forward, r["m"])), ("tbgm", lambda: dense(Tb.get_matrix()))):
                 try:
-                    r[nm_] = np.array(fn_(), dtype=float, copy=True)
+                    r[nm_] = np.array(fl(fn_()), copy=True)
                 except Exception as e:
                     r[nm_] = None; r[nm_ + "_err"] = repr(e)[:100]
         return r
@@ -840,10 +853,14 @@ def _run(ctx):
             ctx.fail(tiekey, desc, "T taken earlier = T taken now (both follow the current matrix / geometry)", tb, "transposed model taken before an in-place modification is stale")
             ctx.fail(keyf("T-stale"), desc, "T taken earlier = T taken now (both follow the current matrix / geometry)", tb, "transposed model taken before an in-place modification is stale")
 
-    LAYOUTS = ("C", "F", "Tview", "strided", "int64", "float32", "csc", "csr", "readonly")
+    LAYOUTS = ("C", "F", "Tview", "strided", "int64", "float32", "csc", "csr", "readonly", "float16", "int8", "uint8", "bool")
     MUTS = ("none", "entry", "diag", "via-get_matrix")
     def history_mb(layout, mut, nR, nD, expansion=False):
         A0 = nrs.randint(-3, 4, size=(nR, nD)).astype(float); A0[nR - 1, 0] = 3.0; A0[0, nD - 1] = -2.0
+        if layout in ("uint8", "bool"):
+            A0 = np.abs(A0)
+        if layout == "bool":
+            A0 = (A0 != 0).astype(float); A0[0, 0] = 0.0
         A1 = A0.copy()
         if mut == "entry":
             A1[min(1, nR - 1), min(2, nD - 1)] += 10
@@ -872,6 +889,7 @@ def _run(ctx):
                 big = np.zeros((2 * nR, 2 * nD)); big[::2, ::2] = A0; obj = big[::2, ::2]
             elif layout == "int64": obj = A0.astype(np.int64)
             elif layout == "float32": obj = A0.astype(np.float32)
+            elif layout in ("float16", "int8", "uint8", "bool"): obj = A0.astype({"float16": np.float16, "int8": np.int8, "uint8": np.uint8, "bool": bool}[layout])
             elif layout == "csc": obj = csc_matrix(A0)
             elif layout == "csr": obj = csr_matrix(A0)
             else:
@@ -904,7 +922,7 @@ def _run(ctx):
 
     for layout in LAYOUTS:
         for mut in MUTS:
-            if layout == "readonly" and mut != "none":
+            if layout in ("readonly", "bool") and mut != "none":
                 continue
             if layout in ("csc", "csr") and mut == "entry":
                 continue          # (assigning a single entry of a sparse matrix is not an in-place update of its data)
@@ -912,6 +930,96 @@ def _run(ctx):
             history_mb(layout, mut, nR, nD)
             if thorough or (layout in ("C", "F", "csr") and mut in ("entry", "via-get_matrix")):
                 history_mb(layout, mut, nR, nD, expansion=True)
+
+    # ---- COMPLEX matrices (dense / csc / csr, and complex function pairs): the model is stated over every commutative
+    # ring, so its prediction is F_R·A·E_D and F_D·Aᵀ·E_R with the PLAIN transpose (bilinear pairing Σ u_i v_i, which is
+    # what the real case and the code's `.T` mean); real geometries make the maps linear in A, so the prediction for
+    # A = Ar + i·Ai is P(Ar) + i·P(Ai) — two real driver lines.
+    def complex_case(kind, sparse, gd_, gr_, name):
+        nD, nR = gd_.fun_dim, gr_.fun_dim
+        if name == "dft":
+            k_ = np.arange(nR)[:, None] * np.arange(nD)[None, :]
+            Ac = np.exp(-2j * np.pi * k_ / max(nD, nR))
+        else:
+            Ac = nrs.randint(-3, 4, size=(nR, nD)) + 1j * nrs.randint(-3, 4, size=(nR, nD))
+            Ac[0, 0] = 1 + 2j
+        Ac = Ac.astype(complex)
+        desc = {"kind": kind, "matrix": "complex " + name, "sparse": sparse, "A_real": Ac.real.tolist(), "A_imag": Ac.imag.tolist(), "dom": gd_.label, "rng": gr_.label}
+        keyf = lambda aspect: f"LinearModel:{aspect}:{kind}:plain:{gd_.label}>{gr_.label}@complex:{sparse}"
+        tiekey = f"tie:LinearModel:{kind}:complex:{sparse}"
+        store = {}
+        def mk():
+            if kind == "mb":
+                return LinearModel({"dense": Ac, "csc": csc_matrix(Ac), "csr": csr_matrix(Ac)}[sparse], range_geometry=gr_.make(), domain_geometry=gd_.make())
+            return LinearModel(lambda x: (Ac @ np.asarray(x).ravel()).reshape(gr_.fun_shape), lambda y: (Ac.T @ np.asarray(y).ravel()).reshape(gd_.fun_shape),
+                               gr_.make(), gd_.make())
+        def h_re(out):
+            store["re"] = out
+        def h_im(out):
+            ctx.case("lin-complex-" + kind, desc)
+            fr, fi = fields(store["re"]), fields(out)
+            with quiet():
+                M = mk(); r = probe_obj(M, M.T)
+            ok = True
+            for nm_ in ("fwd", "adj", "gm", "tfwd", "tadj", "tgm"):
+                if fr.get(nm_, "err") == "err" or fi.get(nm_, "err") == "err":
+                    continue
+                pred = parse_L(fr[nm_]) + 1j * parse_L(fi[nm_])
+                if r[nm_] is None or not same(pred, r[nm_], name != "dft"):
+                    ctx.disagree(tiekey, {**desc, "what": nm_}, str(pred.tolist())[:300], r.get(nm_ + "_err") if r[nm_] is None else str(r[nm_].tolist())[:300],
+                                 f"{nm_} of a complex model differs from the model's (plain-transpose) prediction")
+                    ok = False
+            # the identity itself with complex vectors, bilinear pairing
+            rr = np.random.RandomState(nD * 7 + nR)
+            x = rr.randint(-3, 4, size=M.domain_dim) + 1j * rr.randint(-3, 4, size=M.domain_dim)
+            y = rr.randint(-3, 4, size=M.range_dim) + 1j * rr.randint(-3, 4, size=M.range_dim)
+            with quiet():
+                lhs = complex(np.sum(fl(M.forward(x)).ravel() * y)); rhs = complex(np.sum(x * fl(M.adjoint(y)).ravel()))
+            r["ip"] = []
+            ipbad = abs(lhs - rhs) > 1e-9 * np.abs(Ac).max() * np.abs(x).sum() * np.abs(y).sum()
+            if not ok or ipbad:
+                c = _Collector(); oracle_linear(c, r, keyf, desc, exact=(name != "dft"))
+                for fl_ in c.failures:
+                    ctx.fail(tiekey, fl_[1], fl_[2], fl_[3], fl_[4])
+                if ipbad:
+                    ctx.fail(tiekey, {**desc, "x": str(x.tolist()), "y": str(y.tolist())}, str(lhs), str(rhs), "<A x, y> != <x, A* y> (bilinear pairing) for a complex model")
+            if ipbad:
+                ctx.fail(keyf("adjoint"), {**desc, "x": str(x.tolist()), "y": str(y.tolist())}, str(lhs), str(rhs), "<A x, y> != <x, A* y> (bilinear pairing) for a complex model")
+            oracle_linear(ctx, r, keyf, desc, exact=(name != "dft"))
+        Br, Bi = Ac.real.T, Ac.imag.T
+        jobs.append((f"lin {kind} {qm(Ac.real)} {'-' if kind == 'mb' else qm(Br)} {gd_.token} {gr_.token}", h_re))
+        jobs.append((f"lin {kind} {qm(Ac.imag)} {'-' if kind == 'mb' else qm(Bi)} {gd_.token} {gr_.token}", h_im))
+
+    for name in ("int", "dft"):
+        for kind, sp in (("mb", "dense"), ("mb", "csc"), ("mb", "csr"), ("fn", "dense")):
+            nD, nR = rng.choice([(3, 3), (4, 3), (3, 5)])
+            lab = rng.choice(["Continuous1D", "Discrete", "Default1D"])
+            complex_case(kind, sp, g1(lab, nD), g1(lab, nR), name)
+    complex_case("fn", "dense", gI(2, 2, "F"), gI(2, 3, "C"), "int")
+
+    # ---- the same user objects (matrix array, geometry objects, callables) in a SECOND owner: a model must keep giving the
+    # results of a stand-alone model after another model / a shallow copy sharing its objects has been built and used
+    import copy as _copy
+    for kind in ("mb", "fn"):
+        nR, nD = rng.choice([(3, 4), (4, 3), (3, 3)])
+        A0 = nrs.randint(-3, 4, size=(nR, nD)).astype(float)
+        Dg, Rg_ = (Continuous1D(nD), Continuous1D(nR)) if kind == "mb" else (_I2((1, nD), order="F"), Continuous1D(nR))
+        fw = lambda x, A0=A0: A0 @ np.asarray(x).ravel()
+        ad = lambda y, A0=A0, nD=nD, kind=kind: (A0.T @ np.asarray(y).ravel()).reshape((1, nD) if kind == "fn" else (nD,))
+        mk1 = (lambda: LinearModel(A0, range_geometry=Rg_, domain_geometry=Dg)) if kind == "mb" else (lambda: LinearModel(fw, ad, Rg_, Dg))
+        desc2 = {"history": "objects shared with a second model", "kind": kind, "A": A0.tolist()}
+        ctx.case("lin-second-owner", desc2)
+        with quiet():
+            M1 = mk1(); F1 = cols(M1.forward, nD); A1_ = cols(M1.adjoint, nR); G1 = dense(M1.get_matrix())
+            M2 = mk1(); M2.get_matrix(); T2 = M2.T; T2.forward(np.ones(nR)); T2.get_matrix()
+            M3 = _copy.copy(M1); M3._non_default_args = ["z"]; M3.forward(z=np.ones(nD))
+            M4 = LinearModel(A0.T, range_geometry=Dg, domain_geometry=Rg_) if kind == "mb" else LinearModel(ad, fw, Dg, Rg_)
+            M4.forward(np.ones(nR)); M4.get_matrix()
+            F1b = cols(M1.forward, nD); A1b = cols(M1.adjoint, nR); G1b = dense(M1.get_matrix()); TG = dense(M1.T.get_matrix())
+        k2 = f"LinearModel:second-owner:{kind}"
+        if differ(F1, A0, True) or differ(F1b, F1, True) or differ(A1b, A1_, True) or differ(G1b, G1, True) or differ(F1b.T, A1b, True) or differ(TG, G1b.T, True):
+            ctx.fail(k2, desc2, "results of a stand-alone model, unchanged by other models sharing its matrix / geometries / callables", "changed",
+                     "a second model (or a shallow copy) sharing the user's objects changes the first model's maps")
 
     # function-backed histories: get_matrix() (which caches) BEFORE T / further calls; a geometry RE-ASSIGNED after first use
     def history_fn(gd_, gr_, gd_new, cached):
@@ -1120,8 +1228,11 @@ def _run(ctx):
         if P is not None:
             kw["PSF"] = P
         else:
-            kw.update(PSF=named, PSF_size=size, PSF_param=param)
+            kw.update(PSF=named, PSF_param=param)
+            if size is not None:
+                kw["PSF_size"] = size          # None: the documented default (21) is used
         desc = {"problem": "Deconvolution2D", "dim": n, "BC": BC, "PSF": P.tolist() if P is not None else named, "PSF_size": size, "PSF_param": param}
+        req = (21 if size is None else size) if P is None else None     # the size the caller asked for (documentation: "PSF_size : int, default 21")
         try:
             with quiet():
                 TP = Deconvolution2D(**kw)
@@ -1133,7 +1244,9 @@ def _run(ctx):
         symm = np.array_equal(Pl, Pl[::-1, :]) and np.array_equal(Pl, Pl[:, ::-1])
         # PSF identity: named PSFs by NAME (what the documentation promises, not what the array happens to be)
         psfcls = named.lower() if named is not None else ("custom-sym" if symm else "custom-asym")
-        cls = f"BC={BC.lower()}:PSF={psfcls}:{'odd' if s % 2 else 'even'}"
+        # size parity: of the REQUESTED size for named PSFs (what the caller asked for), of the array for custom PSFs
+        par_ = (req if req is not None else s) % 2
+        cls = f"BC={BC.lower()}:PSF={psfcls}:{'odd' if par_ else 'even'}"
 
         def make_model():
             M = TP.model
@@ -1149,6 +1262,14 @@ def _run(ctx):
             keyf = lambda aspect: f"Deconvolution2D:{aspect}:{cls}"
             res = probe(make_model)
             check_own_model(ctx, TP.model, res, tiekey, desc)
+            if req is not None and Pl.shape != (req, req):
+                ctx.disagree(tiekey, desc, [req, req], list(Pl.shape), "the PSF the problem uses does not have the requested PSF_size")
+                F_, A_ = res["fwd"], res["adj"]
+                if F_ is not None and A_ is not None and differ(F_.T, A_):
+                    ctx.fail(tiekey, {**desc, "PSF_shape": list(Pl.shape)}, "matrix of adjoint = transpose of matrix of forward", "differs",
+                             "<A x, y> != <x, A* y> with the PSF the problem built (its size is not the requested PSF_size)")
+                ctx.fail(f"Deconvolution2D:PSF={psfcls}:requested-size", {**desc, "PSF_shape": list(Pl.shape)}, f"PSF of shape ({req}, {req})", list(Pl.shape),
+                         "the named PSF is not built with the requested PSF_size")
             if named is not None and named.lower() in ("gauss", "moffat") and not centred_symmetric(Pl):
                 ctx.fail(f"Deconvolution2D:PSF={named.lower()}:centred-symmetric:{'odd' if s % 2 else 'even'}", {**desc, "PSF_array": Pl.tolist()},
                          "PSF symmetric about its centre pixel s//2 along both axes", "asymmetric / off-centre", "the shipped Gauss/Moffat PSF is not the documented centred symmetric PSF")
@@ -1179,6 +1300,13 @@ def _run(ctx):
     # the shipped default PSF (Gauss, PSF_size=21, PSF_param=2.56) under Neumann and periodic boundaries, and odd named sizes under Neumann
     nd_ = 6 if thorough else 3      # (the exact model of a 21x21 PSF costs n^4 * 441 rational operations)
     deconv2_case(nd_, "Neumann", named="gauss", size=21, param=2.56); deconv2_case(nd_, "periodic", named="gauss", size=21, param=2.56)
+    # PSF_size LARGER than the image (padding wider than the image), even and odd dim; the default size passed by omission
+    deconv2_case(4, rng.choice(["periodic", "zero", "Neumann"]), named="gauss", size=None, param=2.56)
+    for BC in ("periodic", "zero", "neumann"):
+        deconv2_case(4, BC, named=rng.choice(["gauss", "moffat"]), size=5, param=1.0)
+        deconv2_case(rng.choice([4, 6]), BC, named=rng.choice(["gauss", "moffat", "defocus"]), size=7, param=1.5)
+        deconv2_case(3, BC, named="gauss", size=rng.choice([4, 5]), param=1.0)
+        deconv2_case(2, BC, P=int_psf2(3, True)); deconv2_case(2, BC, P=int_psf2(5, False))
     for named in ("gauss", "moffat"):
         for size in (3, 5, 7):
             deconv2_case(5, "neumann", named=named, size=size, param=rng.choice([1.0, 2.56]))
@@ -1189,6 +1317,22 @@ def _run(ctx):
     deconv2_case(2, "periodic", P=P0(2)); deconv2_case(2, "zero", P=P0(2)); deconv2_case(2, "neumann", P=P0(3))
     deconv2_case(3, "nearest", P=P0(3)); deconv2_case(3, "mirror", P=np.ones((3, 3)))
     deconv2_case(2, "periodic", P=P0(3)); deconv2_case(3, "neumann", P=np.array([[1.0, 1, 1], [1, 2, 1], [1, 1, 1]]))
+
+    # falsy but valid option value: `PSF_param = 0` selects the delta PSF in `_DefocusPSF(_1D)` ("the blurring matrix is I")
+    for dimlab, ctor in (("1D", lambda: Deconvolution1D(dim=5, PSF="defocus", PSF_param=0, PSF_size=3)),
+                         ("2D", lambda: Deconvolution2D(dim=4, PSF="defocus", PSF_param=0, PSF_size=3, phantom=np.ones((4, 4))))):
+        desc0 = {"problem": "Deconvolution" + dimlab, "PSF": "defocus", "PSF_param": 0, "PSF_size": 3}
+        ctx.case("deconv-defocus-param0", desc0)
+        try:
+            with quiet():
+                TP0 = ctor()
+                n0 = int(TP0.model.domain_dim)
+                F0 = cols(TP0.model.forward, n0); A0_ = cols(TP0.model.adjoint, n0)
+            if differ(F0, np.eye(n0)) or differ(A0_, np.eye(n0)):
+                ctx.fail(f"Deconvolution{dimlab}:PSF=defocus:PSF_param=0:identity", desc0, "forward = adjoint = identity (delta PSF)", "differs", "delta PSF does not give the identity operator")
+        except Exception as e:
+            ctx.fail(f"Deconvolution{dimlab}:constructor:PSF=defocus:PSF_param=0", desc0, "a linear model with the delta PSF", repr(e)[:120],
+                     "the documented delta-PSF option (PSF_param = 0) cannot be constructed")
 
     # ================================================================ Abel1D
     def abel_case(n, endpoint, field, params):
